@@ -153,10 +153,6 @@ theorem C01_e2e_reencode_partial (c : Cfg) (o : Fit.DecApi.Opts) (files : List F
     exact AllMatch.cons (seqMatches_literal o.fac c.w.arch a {} b (hnorm a (by simp)) hab)
       (ih (fun k hk => hnorm k (List.mem_cons_of_mem _ hk)))
 
-/-- the decoded sequences handed back to the encoder: one file per sequence, under the header the decoder returned -/
-def backFiles (fits : List Fit.DecApi.Fit) : List FileIn :=
-  fits.map fun f => { hsize := f.hdr.size, hpv := f.hdr.protoVer, hprofile := f.hdr.profileVer, msgs := f.msgs.map ofDecoded }
-
 /-- the last sentence of the property at full strength: for the messages the decoder returned for ANY input bytes -/
 def C01_e2e_reencode_full : Prop :=
   ∀ (c : Cfg) (o : Fit.DecApi.Opts) (input : List Nat) (fits : List Fit.DecApi.Fit) (kepts : List (List Message)) (bytes : List Nat),
